@@ -54,8 +54,16 @@ TProg ==
     /\ Ev.e = "prog" /\ MReset(Ev.desc) /\ pid' = Ev.id /\ hid' = Ev.h /\ stepno' = 0
     /\ viol' = viol
 
+\* after a panic or a wrong number of executed ticks the instance and the model are out of step:
+\* the rest of that history is consumed without further comparison (no follow-on reports)
+Dead == \E v \in viol : v[1] = pid /\ v[2] = hid /\ v[4] \in {"ticks-executed", "panic", "run-available-did-not-stop"}
+
+TSkip ==
+    /\ Ev.e = "step" /\ Dead
+    /\ UNCHANGED <<mvars, pid, hid, viol>> /\ stepno' = stepno + 1
+
 TStep ==
-    /\ Ev.e = "step"
+    /\ Ev.e = "step" /\ ~Dead
     /\ pend = NoPend(prog)
     /\ LET withIn == [k \in 1..prog.nsrc |-> Ev.inputs[k]]
            rs == IF Ev.mode = "tick" THEN <<TickRun(prog, sts, tick, withIn)>>
@@ -75,14 +83,17 @@ TStep ==
 
 TPanic ==
     /\ Ev.e = "panic"
-    /\ viol' = viol \cup {<<pid, hid, stepno + 1, "panic">>}
+    \* "runaway": the harness stopped a run call after 100 ticks (run_available did not become idle;
+    \* the generator only uses run_available where the model becomes idle)
+    /\ viol' = viol \cup {<<pid, hid, stepno + 1,
+                            IF Ev.msg = "runaway" THEN "run-available-did-not-stop" ELSE "panic">>}
     /\ UNCHANGED <<mvars, pid, hid, stepno>>
 
 TEof ==
     /\ Ev.e = "eof" /\ UNCHANGED <<mvars, pid, hid, stepno, viol>>
     /\ PrintT(<<"VIOL", ToJson(viol)>>)
 
-TNext == Consume /\ (TProg \/ TStep \/ TPanic \/ TEof)
+TNext == Consume /\ (TProg \/ TStep \/ TSkip \/ TPanic \/ TEof)
 
 TSpec == TInit /\ [][TNext]_tvars
 
